@@ -91,6 +91,31 @@ def r1_roles(ctx):
     key = e.value.slice.value
     ctx.ob(gl.where, "contig lengths are the LENGTH column of the index (true sequence length)", kr.get(key) == "LENGTH", f"reads key {key!r} = {kr.get(key)}",
            key="C17-R1|contig-lengths")
+    # every source of the record dict an IndexedFasta works with keys the records the same way (first word of NAME) and has the same value roles
+    init0 = ix.func(IF, "IndexedFasta.__init__")
+    srcs = [x.value for x in body_walk(init0.node) if isinstance(x, ast.Assign) and u(x.targets[0]) == "self._index"]
+    ctx.floor("sources of IndexedFasta._index", len(srcs), 1)
+    for v in srcs:
+        if isinstance(v, ast.Call) and u(v.func) == "read_index":
+            ok, detail = True, u(v)[:80]
+        elif isinstance(v, ast.DictComp):
+            k = v.key
+            first_word = isinstance(k, ast.Subscript) and isinstance(k.slice, ast.Constant) and k.slice.value == 0 and isinstance(k.value, ast.Call) and \
+                isinstance(k.value.func, ast.Attribute) and k.value.func.attr == "split" and not k.value.args
+            roles2 = {}
+            if isinstance(v.value, ast.Dict):
+                for kk, vv in zip(v.value.keys, v.value.values):
+                    attrs = [a.attr for a in ast.walk(vv) if isinstance(a, ast.Attribute)]
+                    fld = [a for a in attrs if a in fields]
+                    roles2[getattr(kk, "value", None)] = ROLES[fields.index(fld[0])] if len(fld) == 1 else "?"
+            if not isinstance(v.value, ast.Dict):
+                raise Unrecognised(f"{init0.where}: record dict built as `{u(v)[:80]}`")
+            ok = first_word and roles2 == kr
+            detail = f"key `{u(k)}`, roles {roles2}"
+        else:
+            raise Unrecognised(f"{init0.where}: record dict comes from `{u(v)[:80]}`")
+        ctx.ob(init0.where, "every source of the record dict keys records by the first word of the header and fills the same roles as the .fai reader (an object built "
+               "from a fresh in-memory index must behave like one built from the .fai file)", ok, detail, key=f"C17-R1|index-source|{u(v)[:30]}")
     # tuple constructors: (name, var[k1], ..) in FastaIdx field order == role order
     n = 0
     for qn in ("IndexedFasta.__init__", "IndexedFasta._get_interval_sequences_fast"):
